@@ -1,5 +1,8 @@
 use std::net::IpAddr;
+#[cfg(not(aquatic_verif))]
 use std::time::Instant;
+#[cfg(aquatic_verif)]
+use aquatic_verif_rt::time::Instant;
 
 use anyhow::Context;
 use constant_time_eq::constant_time_eq;
